@@ -10,8 +10,10 @@
 // ProxyReader ...) while the context is cancelled.
 //
 // Run (from the worktree root, with defect_helper_test.go copied next to it):
-//   export GOFLAGS=-mod=mod GOPROXY=off GOSUMDB=off GOTOOLCHAIN=local
-//   go test -count=1 -run 'TestDefect4' -v .
+//
+//	export GOFLAGS=-mod=mod GOPROXY=off GOSUMDB=off GOTOOLCHAIN=local
+//	go test -count=1 -run 'TestDefect4' -v .
+//
 // Schedule dependent: about half of the iterations fail (55/100 in an exploratory run; 40
 // iterations here, the test as a whole failed on every run).
 package realrepro
